@@ -51,27 +51,42 @@ def generate():
                 else: raise Unsupported("pair value " + s)
         if key_idx is None or val_idx is None:
             raise Unsupported("pair branch not in the expected form")
-        # --- rebuild loop
-        canonical = False
-        for n in walk_no_nested(f):
-            if isinstance(n, ast.For) and ast.unparse(n.iter) == "self._parameters.items()":
-                body = [ast.unparse(b) for b in n.body]
-                tgt = ast.unparse(n.target)
-                canonical = (tgt == "(key, val)" and body == ["index = self.get_param_index(key)",
-                                                             "self._paramValue[index] = val"])
+        # --- rebuild loop and commit: either the old form (store first, then resolve names into self._paramValue) or the
+        #     atomic form (resolve every name into a local list, then store both)
+        canonical = atomic = False
+        top = [st for st in f.body if not (isinstance(st, ast.Expr) and isinstance(st.value, ast.Constant))]
+        texts = [ast.unparse(st) for st in top]
+        for k, n in enumerate(top):
+            if isinstance(n, ast.For) and ast.unparse(n.target) == "(key, val)":
+                it, body = ast.unparse(n.iter), [ast.unparse(b) for b in n.body]
+                if it == "self._parameters.items()" and body == ["index = self.get_param_index(key)",
+                                                                 "self._paramValue[index] = val"]:
+                    if texts[k - 2:k] != ["self._parameters = param_out", "self._paramValue = [0] * len(self._paramList)"] \
+                            or texts[k + 1:] != ["self.set_sp()"]:
+                        raise Unsupported("statements around the rebuild loop: " + "; ".join(texts[k - 2:]))
+                    canonical, atomic = True, False
+                elif it == "param_out.items()" and body == ["index = self.get_param_index(key)", "param_value[index] = val"]:
+                    if texts[k - 1:k] != ["param_value = [0] * len(self._paramList)"] \
+                            or texts[k + 1:] != ["self._parameters = param_out", "self._paramValue = param_value", "self.set_sp()"]:
+                        raise Unsupported("statements around the rebuild loop: " + "; ".join(texts[k - 1:]))
+                    canonical, atomic = True, True
+                else:
+                    raise Unsupported("rebuild loop: for (key, val) in %s: %s" % (it, "; ".join(body)))
         src = ast.unparse(f)
-        if "self._parameters = param_out" not in src:
-            raise Unsupported("final assignment self._parameters = param_out missing")
+        if src.count("self._parameters = param_out") != 1 or src.count("self._parameters =") != 1:
+            raise Unsupported("final assignment self._parameters = param_out missing or not unique")
         return ("(* GENERATED from base_ode_model.py: BaseOdeModel.parameters setter *)\n"
                 "Definition translator_ok := true.\n"
                 "Definition dict_branch_aliases := %s.\n"
                 "Definition pairs_key_index := %d.\nDefinition pairs_value_index := %d.\n"
                 "Definition rebuild_loop_is_canonical := %s.\n"
-                % (coq_bool(alias), key_idx, val_idx, coq_bool(canonical)))
+                "Definition commit_is_atomic := %s.\n"
+                % (coq_bool(alias), key_idx, val_idx, coq_bool(canonical), coq_bool(atomic)))
     except Unsupported as u:
         return (failed("ParamsGen", str(u)) +
                 "Definition dict_branch_aliases := true.\nDefinition pairs_key_index := 0.\n"
-                "Definition pairs_value_index := 0.\nDefinition rebuild_loop_is_canonical := false.\n")
+                "Definition pairs_value_index := 0.\nDefinition rebuild_loop_is_canonical := false.\n"
+                "Definition commit_is_atomic := false.\n")
 
 
 if __name__ == "__main__":
